@@ -69,7 +69,7 @@ def post_layout(S, pre, d, n, W, H, snap, out):
 KINDS = [("soft", "fixed"), ("soft", "soft"), ("soft", "fixed_terminal"), ("fixed", "terminal")]
 
 
-@contract(P, functions=[F + "fruchterman_reingold_layout"], params=[dict(kinds=list(k)) for k in KINDS], budget_s=900, exact_feas_ms=0,
+@contract(P, functions=[F + "fruchterman_reingold_layout"], params=[dict(kinds=list(k)) for k in KINDS], budget_s=900, exact_feas_ms=0, leak_ok=True,
           scope="inductive step: ONE arbitrary iteration from an arbitrary state (loop cut: temperature havocked); 2 modules, one net")
 def one_arbitrary_iteration(S, kinds):
     """The iteration loop is cut: the real function, with `t = __havoc__('t', t)` inserted before its loop, is run for
@@ -84,7 +84,7 @@ def one_arbitrary_iteration(S, kinds):
         v = S.fresh_real("t_any")
         S.assume(v > 0)
         return v
-    cut, info = loopcut.havoc_before_loop(fr.fruchterman_reingold_layout, 0, ["t"], havoc)
+    cut, info = loopcut.havoc_before_loop(fr.fruchterman_reingold_layout, lambda target, it: "max_iter" in it, ["t"], havoc)
     S.cover("loop-cut: " + str(info["inserted"]))
     snap = snapshot(n)
     out = S.call(cut, d, kappa, False, None, 1)
